@@ -498,6 +498,11 @@ def check(ctx: Ctx):
     from . import c01, c03
 
     c03._guarded(ctx, "R01.2", c01.check_pipeline)
+    # "no match -> tp = 0": relabelling must not move an unmatched prediction onto a reference label
+    from . import c04
+
+    c04.check_chained_replacement(ctx)
+    c03._guarded(ctx, "R04.2", c04.check_relabel)
 
 
 _E = "panoptica/utils/edge_case_handling.py"
